@@ -125,6 +125,7 @@ class Gen:
         if repeat:
             insts = ["s", "v", "v"]
             self.tags.add("names:instance-name-repeated-on-path")
+        wrapped_by_extends = False
         for d in range(depth):
             inst = insts[d]
             lp = pname(levels[d])
@@ -137,9 +138,21 @@ class Gen:
                 C["comps"].append(self.comp("s", inner_name))
             lib["classes"].append(C)
             cur = cname
+            if d == 0 and not repeat and r.random() < 0.3:
+                # an extends level above the first enclosing component: class WE extends W(s.x.max = r, ...); the
+                # modified sub-component s is sometimes declared in W without any modifier at all
+                if r.random() < 0.5:
+                    C["comps"][1]["mods"] = []
+                    self.tags.add("extends-modifies-member-of-unmodified-sub-component")
+                emods2 = self.target_mods(path, sp, "extends-over-component", scope_names=[lp], full_path=path)
+                WE = self.cls(cname + "E", [], extends=[{"name": cname, "mods": emods2}])
+                lib["classes"].append(WE)
+                cur = cname + "E"
+                wrapped_by_extends = True
+                self.tags.add("level:extends-over-enclosing-component")
             self.tags.add("level:enclosing-component-%d" % (d + 1))
         self.top = cur
-        if r.random() < 0.25 and depth >= 1 and not repeat:
+        if r.random() < 0.25 and depth >= 1 and not repeat and not wrapped_by_extends:
             # the modified classes live in a package; the first enclosing (wrapper) class has the same
             # short name as the library class it instantiates (Lib.S inside a top-level S)
             inner = [c for c in lib["classes"] if c["name"] in ("TK", "TK2", "S", "E", "E2")]
